@@ -6,9 +6,10 @@ Correspondence
       (incl. chained ones) vs the Lean model, cdf / icdf / pdf, in the call shapes the contour
       classes use: vector x & vector given (IFORM), scalar & scalar (ISORM), vector x & scalar
       given (HDC); bit-exact.  draw_sample on a replayed uniform stream.
-  (B) every shipped family as template x every partition of its parameters into fixed /
-      dependent (>= 1 dependent) x random dependence functions: compared with *constructed*
-      instances Family(**values).m(x_j), one pair at a time (the reference the property names).
+  (B) every shipped family (and two ScipyDistribution subclasses) as template x every partition of
+      its parameters into fixed / dependent (also: all fixed) x random dependence functions:
+      compared with *constructed* instances Family(**values).m(x_j), one pair at a time (the
+      reference the property names); bulk quantiles, p -> 0/1, x outside the support.
   (C) keyword binding of dependence-function parameters: position of the bound parameter vs
       the Lean `bindCall` (TypeError iff not trailing).
   (D) draw_sample through every shipped / ScipyDistribution template: same seed => the very sample of
@@ -919,12 +920,34 @@ def main(ck):
     rng = np.random.default_rng(ck.seed)
     thorough = ck.tier == "thorough"
     ck.rule = ("(A) ConditionalDistribution over rational doubles with random (also chained) dependence functions x "
-               "{cdf, icdf, pdf} x five call shapes, bit-exact vs model and vs constructed template; draw_sample on a "
-               "replayed stream; (B) 8 templates (6 shipped families + two ScipyDistribution subclasses: gamma by scipy_dist_name, Gumbel by scipy_dist, no shape parameter) x every non-empty "
-               "dependent subset of their parameters x random dependence functions x methods x shapes vs constructed "
-               "instances; (C) every keyword-binding position for 3-parameter callables; distinct by SHA1")
+               "{cdf, icdf, pdf} x six call shapes, bit-exact vs model and vs constructed template; draw_sample on a "
+               "replayed stream; (B) 9 templates (7 shipped families incl. LogNormalNormFit + two ScipyDistribution "
+               "subclasses: gamma by scipy_dist_name, Gumbel by scipy_dist, no shape parameter) x EVERY dependent subset of "
+               "their parameters (incl. none: all fixed) x random dependence functions (incl. one returning a scalar for a "
+               "vector) x methods x six shapes (integer-dtype given, list x, length-1 vectors) x points (bulk quantiles / "
+               "p at and next to 0 and 1 / x outside the support, +-inf) vs constructed instances, plus every ordered pair "
+               "(inner, outer) of parameters sharing ONE dependence-function object; (C) every keyword-binding position "
+               "for 3-parameter callables; (D) draw_sample of the same 9 templates x partitions x n in {1,2,3,7} x given "
+               "{float/int vector, length-1 vector, float/int scalar} x seed as int / Generator vs the sample of the "
+               "template constructed at the broadcast dependence values, same seed; (E) dependence callables with "
+               "signature defaults / no defaults (implicit 1), also as the inner of a chained one, never overwritten: "
+               "dep(x), the conditional distribution over the double, explicit-parameter calls (positional, keyword, "
+               "mixed, every wrong count); (F) doubles with one DependenceFunction object as a parameter and inside the "
+               "other parameter's function (chained, ratio numerator / denominator / both); distinct by SHA1")
     ck.assumptions = ["constructed template instances Family(**values) are the reference the property names",
-                      "evaluation points are quantiles 0.02..0.98 of the constructed instance"]
+                      "bulk evaluation points are quantiles 0.02..0.98 of the constructed instance; tail points are "
+                      "p in {0, 1e-300, 1e-17, 1e-12, 1e-6, 1-1e-6, 1-1e-12, 1-2^-53, 1} (or the x they map to), outside "
+                      "points are fixed x in {-inf, -1e6, -3, -1e-9, 0, 1e-300, 1e9, 1e300, inf} and the lower end of the "
+                      "support (exactly / one ulp below / 0.5 below)",
+                      "sampling reference: the template constructed with every parameter broadcast to one value per "
+                      "conditioning value and drawn with the same seed (so the sample is compared bit for bit; that the "
+                      "template's sampler follows the template's law is C07's business)",
+                      "dependence callables only promise to work on numbers and ndarrays: `given` is never a list"]
+    ck.partial = {"sampling: the conditional sample equals the template's sample at the dependence values": "observed per "
+                  "run for every template (same seed, bit for bit); the theorems give the sample SIZE only "
+                  "(cond_sample_shape_vector / _scalar), the samplers are scipy's",
+                  "explicit-parameter call with a wrong number of values raises ValueError": "not part of the property text; "
+                  "compared with the model's callMode as correspondence only"}
     for case in gen_double_cases(rng, 3000 if thorough else 400):
         process_double(ck, case)
     for _ in range(200 if thorough else 40):
